@@ -374,6 +374,53 @@ Section Proofs.
   End Mutate.
 
 
+  (* ================= entries disappear by a complete invalidate cascade, versions unchanged ================= *)
+  Section Shrink.
+    Variable st : state.
+    Variable c' : cache.
+    Hypothesis I : Inv st.
+    Hypothesis P : Post (cc st) c'.
+    Hypothesis R : RefsOK c'.
+    Let st' := State c' (heap st) (next st) (ver st).
+
+    Lemma shr_entries_sub x y r : lookup2 c' x y = Some r -> lookup2 (cc st) x y = Some r.
+    Proof.
+      intros L. destruct (p_widgets _ _ P x) as [E|E].
+      - rewrite <- (lookup2_same_widgets (cc st) c' x y E). exact L.
+      - apply lookup2_has in L. contradiction.
+    Qed.
+
+    Lemma shr_cached_sub cv : cached st' cv -> cached st cv.
+    Proof. intros [Hin L]. split; [exact Hin|]. apply shr_entries_sub. exact L. Qed.
+
+    Lemma shr_trace w0 : alookup (widgets c') w0 <> None ->
+      forall ids p, trace st w0 ids p -> trace st' w0 ids p.
+    Proof.
+      intros W0. induction ids as [|i r IH]; intros p; destruct p as [c|x k cont]; cbn [trace]; auto.
+      intros [cx [Hin [E1 [E2 [E3 [L [D T]]]]]]]. exists cx.
+      assert (Wx : alookup (widgets c') x = alookup (widgets (cc st)) x).
+      { destruct (p_widgets _ _ P x) as [E|E]; [exact E|]. exfalso. apply W0.
+        apply (p_closed _ _ P x w0); [eapply lookup2_has; eauto|exact E|exact D]. }
+      assert (Lx : lookup2 c' x k = Some i) by (rewrite (lookup2_same_widgets _ _ _ _ Wx); exact L).
+      repeat split; auto.
+      - unfold st'. cbn [cc]. destruct (olz_eq_dec (alookup (deps c') x) (alookup (deps (cc st)) x)) as [E|E].
+        + rewrite (deps_of_same _ _ _ E). exact D.
+        + apply (p_deps_changed _ _ P) in E. apply lookup2_has in Lx. contradiction.
+    Qed.
+
+    Lemma shrink_inv : Inv st'.
+    Proof.
+      split.
+      - intros x y r L. apply (inv_live st I). apply shr_entries_sub. exact L.
+      - exact R.
+      - apply (inv_ids st I).
+      - apply (inv_nodup st I).
+      - intros cv Cc. apply (inv_fresh st I). apply shr_cached_sub. exact Cc.
+      - intros cv Cc. apply shr_trace; [destruct Cc as [_ L]; eapply lookup2_has; eauto|].
+        apply (inv_trace st I). apply shr_cached_sub. exact Cc.
+    Qed.
+  End Shrink.
+
   (* ================= Collect: a canvas nobody references dies, its weakref callback runs ================= *)
   Lemma collectable_spec st c0 : collectable C st c0 = true ->
     forall cv, In cv (heap st) -> ~ In c0 (c_children cv).
@@ -435,9 +482,9 @@ Section Proofs.
     Qed.
   End Collect.
 
-  Lemma collect_step_inv st c0 :
+  Lemma collect_entry_inv st c0 :
     Inv st -> collectable C st c0 = true ->
-    Inv (State (cleanup (cc st) c0) (remove_canvas C (heap st) c0) (next st) (ver st)).
+    Inv (State (cleanup_entry (cc st) c0) (remove_canvas C (heap st) c0) (next st) (ver st)).
   Proof.
     intros I Hc. pose proof (collectable_spec _ _ Hc) as NoRef.
     pose proof (inv_refs st I) as R0. destruct R0 as [RA RB RN].
@@ -465,6 +512,18 @@ Section Proofs.
       apply collect_inv; auto.
       + intros x y r L. split; [exact L|]. intros ->. pose proof (RB _ _ _ L) as Er2. congruence.
       + apply (inv_refs st I).
+  Qed.
+
+  Lemma collect_step_inv st c0 :
+    Inv st -> collectable C st c0 = true ->
+    Inv (State (cleanup (cc st) c0) (remove_canvas C (heap st) c0) (next st) (ver st)).
+  Proof.
+    intros I Hc. pose proof (collect_entry_inv st c0 I Hc) as I1.
+    unfold cleanup.
+    destruct (invalidate_all_total (S (length (deps (cleanup_entry (cc st) c0)))) (cleanup_popped (cc st) c0)
+                (cleanup_entry (cc st) c0) ltac:(lia)) as [c2 [E _]].
+    rewrite E. destruct (invalidate_all_spec _ _ _ _ E) as [P [_ R]].
+    exact (shrink_inv _ c2 I1 P (R (inv_refs _ I1))).
   Qed.
 
   (* ================= every operation keeps the invariant ================= *)
